@@ -361,21 +361,38 @@ type Truth2 struct {
 	RecoveryAllSnapshots bool
 	IndexIntact          bool
 	MatchingFiles        []string
+	// MaxIntactAnySet: the largest number of distinct intact recovery
+	// packets that any one recovery set id has among the matching files
+	// (what a reader may truthfully report when the index on disk does
+	// not identify the set any more and it takes the set from a volume).
+	MaxIntactAnySet int
 }
 
 // TruthPar2 computes the reference view of the current disk state.
-func (w *World) TruthPar2() Truth2 {
-	var t Truth2
+func (w *World) TruthPar2() (t Truth2) {
 	t.Scan = ref.Scan(w.Files, w.S, w.Present())
 	idx, ok := w.Disk.Get(w.Index)
 	t.IndexIntact = ok && string(idx) == string(w.Created[w.Index])
+	// the recovery set is the one Create wrote: its id is read from the
+	// snapshot of the index (the index on disk may be damaged or gone,
+	// which does not make the recovery blocks beside it any less intact)
 	var setID [16]byte
-	if ok {
+	if snap, have := w.Created[w.Index]; have {
+		setID = ref.ReadIndex(snap).SetID
+	} else if ok {
 		setID = ref.ReadIndex(idx).SetID
 	}
 	prefix := filepath.Join(w.Dir, w.Base) + "."
 	t.RecoveryAllSnapshots = true
 	seen := map[int]bool{}
+	perSet := map[[16]byte]map[uint32]bool{}
+	defer func() {
+		for _, m := range perSet {
+			if len(m) > t.MaxIntactAnySet {
+				t.MaxIntactAnySet = len(m)
+			}
+		}
+	}()
 	for _, p := range w.Disk.SortedPaths() {
 		if filepath.Dir(p) != w.Dir || !strings.HasPrefix(p, prefix) || !strings.HasSuffix(p, ".par2") || len(p) < len(prefix)+len(".par2") {
 			continue
@@ -388,6 +405,15 @@ func (w *World) TruthPar2() Truth2 {
 		exps, dmg := ref.IntactRecoveryExponents(b, setID)
 		if dmg {
 			t.RecoveryDamaged = true
+		}
+		pk, _ := ref.ParsePackets(b)
+		for _, x := range pk {
+			if e, ok := ref.RecoveryExponent(x); ok {
+				if perSet[x.SetID] == nil {
+					perSet[x.SetID] = map[uint32]bool{}
+				}
+				perSet[x.SetID][e] = true
+			}
 		}
 		for _, e := range exps {
 			seen[e] = true
